@@ -68,7 +68,10 @@ def main(run):
             # (the reference is the LARGER of the two coarser errors and the demand a halving: the coarsest error can be small by
             # cancellation - seed 8 gave 6.0e-4, 8.3e-4, 1.6e-4 for a correct scheme, see DESIGN 8.4 - while an error that
             # stays where it was, a floor, is still reported)
-            if errs[-1] > 0.5 * max(errs[0], errs[1]) + 1e-12 or any(b > 1.5 * a + 1e-12 for a, b in zip(errs[:-1], errs[1:])):
+            # A 70-seed sweep showed that NO ordering of the three errors is implied by first-order convergence with moving
+            # edge cells (2.6e-5, 7.2e-5, 8.8e-6 under seed 44): what is demanded beyond the bound is that the finest error
+            # is at most half of the largest - an error that stays where it was (a floor) fails that.
+            if errs[-1] > 0.5 * max(errs) + 1e-12:
                 bad = "error does not decrease in proportion to the grid spacing: %s at h=%s" % (errs, hs)
             stats["worst_ratio"] = max(stats["worst_ratio"], errs[-1] / errs[0] if errs[0] > 0 else 0.0)
             if bad:
@@ -112,9 +115,8 @@ def main(run):
                 if e > bound + 1e-13:
                     bad = "error %.3g at h=%.3g exceeds the first-order bound %.3g" % (e, h, bound)
             floor = 0.5 * (L * gap + M * gap / s.min())
-            for a, b in zip(errs[:-1], errs[1:]):
-                if b > 0.75 * a + 1e-12 and b > floor:
-                    bad = "error does not decrease in proportion to the grid spacing: %s at h=%s" % (errs, hs)
+            if errs[-1] > 0.5 * max(errs) + 1e-12 and errs[-1] > floor:
+                bad = "error does not decrease in proportion to the grid spacing: %s at h=%s" % (errs, hs)
             if errs[-1] > floor + 2.0 * (L * hs[-1] + M * hs[-1] / s.min()):
                 bad = "error %.3g on the finest grid (h=%.3g) stays above the first-order bound" % (errs[-1], hs[-1])
             if bad:
@@ -164,7 +166,10 @@ def main(run):
                 # 0.64, 0.063, 0.0058 for a correct scheme, DESIGN 8.4; an error that stays where it was is still reported)
                 # (an error of 1e-4 relative is an order of magnitude inside the first-order promise of a 4800-point grid; at
                 # that level the three errors are not ordered - seed 11: 8.9e-6, 1.7e-5, 5.1e-6)
-                if not (errs[-1] <= 1e-4 or ((errs[-1] <= 2e-3 or errs[-1] <= 0.25 * errs[1]) and errs[-1] <= 0.5 * max(errs[0], errs[1]) + 1e-9)):
+                # (seed 67: 0.107, 0.0011, 0.0027.)  The first-order promise of the finest grid is 2 (L h + M h / sigma) with
+                # h / q = ln(q_hi / q_lo) / n ~ 1.1e-3 and sigma = 0.1 q: about 2e-2 relative; demanded: inside that promise and
+                # at most half of the largest error.
+                if not (errs[-1] <= 1e-4 or (errs[-1] <= 2e-2 and errs[-1] <= 0.5 * max(errs) + 1e-9)):
                     run.add(Finding("C04:unsorted:%s:%s" % (kind, fname), "%s smearing of %s with the data stored %s: relative errors %s on grids of 300/1200/4800 points do not converge to the documented integral" % (
                         kind, fname, order, errs), desc))
                 else:
@@ -218,9 +223,8 @@ def main(run):
                     if e_ > 2.0 * M * h_ / W_ + 2.0 * Lf * h_ + floor_w + 1e-12:
                         bad = "error %.3g with %d calculation points (h=%.3g) exceeds the first-order bound %.3g" % (e_, n_, h_, 2.0 * M * h_ / W_ + 2.0 * Lf * h_ + floor_w)
             else:
-                for a, b in zip(errs[:-1], errs[1:]):
-                    if b > 0.75 * a + 1e-12:
-                        bad = "error does not decrease in proportion to the grid spacing: %s for %s calculation points" % (errs, ns)
+                if errs[-1] > 0.5 * max(errs) + 1e-12:
+                    bad = "error does not decrease in proportion to the grid spacing: %s for %s calculation points" % (errs, ns)
             if errs[-1] > 2.0 * Lf * (qc[-1] - qc[0]) / ns[-1] * 4 + 1e-12 + (floor_w if kind == "width" else 0.0):
                 bad = "error %.3g on the finest grid exceeds the first-order bound" % errs[-1]
             if bad:
